@@ -186,9 +186,49 @@ def check_realbase(res, fixed):
             res.see('realbase-canonical-ok')
 
 
+LENGTH_BOUNDARIES = (128, 256, 32768, 65536)
+
+
+def length_boundary_cases(tier):
+    """(T, v) whose contents - and, through the wrappers, whose containers' contents - are as long as the values at
+    which the long form of the length octets grows by an octet (and one bit below: 2**15 is where a length's own top bit
+    is first set in a two-octet field), from a few octets below to just above; thorough adds 2**24"""
+    out = []
+    bounds = LENGTH_BOUNDARIES + ((1 << 24,) if tier == 'thorough' else ())
+    for b in bounds:
+        near = range(b - 7, b + 2) if b < (1 << 24) else (b - 5, b - 1, b)
+        for n in near:
+            body = bytes((i * 7 + n) & 0xff for i in range(n)) if b < (1 << 24) else b'\x5a' * n
+            out.append((('octs',), body))
+            if b == (1 << 24):
+                continue
+            out.append((('tag', 'E', 'C', 1, ('octs',)), body))
+            out.append((('seq', (('a', ('octs',), 'req', None), ('b', ('bool',), 'opt', None))), {'a': body}))
+            out.append((('tag', 'I', 'A', 40, ('setof', ('octs',))), [body]))
+            out.append((('bits',), (8 * (n - 1), int.from_bytes(body[:n - 1], 'big'))))
+            out.append((('int',), (1 << (8 * n - 2)) + 5))
+            out.append((('int',), -(1 << (8 * n - 2)) - 5))
+            out.append((('char', 'UTF8String'), 'a' * n))
+            out.append((('char', 'BMPString'), 'ab' * (n // 2)))
+            if n % 3 == 0:
+                out.append((('seqof', ('int',)), [7] * (n // 3)))
+                out.append((('setof', ('bool',)), [True] * (n // 3)))
+    return out
+
+
 def run_shard(shard, tier, seed):
     res = H.Result(ID)
     rng = C.rng_for(seed, ID, shard['shard'])
+    for j, (T, v) in enumerate(length_boundary_cases(tier)):
+        if j % C.NSHARDS != shard['shard']:
+            continue
+        try:
+            check_case(res, T, v, (True, 0))
+            res.see('length-boundary-cases')
+        except Exception:
+            res.see('harness:error')
+            if len(res.inconclusive) < 3:
+                res.inconclusive.append('harness error: ' + H.fmt_exc())
     for i in range(shard['n']):
         if i % 8 == 0:
             try:
